@@ -203,9 +203,21 @@ class Ctx:
             res = self.single(pre_ops, call_op)
             if res.r.rc != 0 or res.r.timeout:
                 return True
-            vals = list(res.R.values()) + [n[3] for n in res.N]
-            return len(vals) != 1 or pred(vals[0])
+            v = answer_of(res, call_op)
+            return v is None or pred(v)
         return f
+
+
+def answer_of(res, call_op):
+    """the answer to the final call:/calls: op of a single-call run (None if there is none)"""
+    if call_op.startswith("calls:"):
+        _, f, hx = call_op.split(":")
+        return res.N[-1][3] if res.N and res.N[-1][1] == f and res.N[-1][2] == hx else None
+    _, f, a, b = call_op.split(":")
+    for (st, f2, a2, b2), v in res.R.items():
+        if f2 == f and a2 == int(a) and b2 == int(b):
+            return v
+    return None
 
 
 def run_db_scenario(cx, name, keys, files, thorough):
@@ -343,6 +355,10 @@ def run_db_scenario(cx, name, keys, files, thorough):
                         % (cf, c[1], af, sorted(nz)[:20]), {"scenario": name, "keys": keys})
 
     # ---- names
+    if sorted(res.n) != sorted(x for x in res.N if not any(c[1] == x[1] and c[0] == x[0] for c in res.CN)):
+        a, b = set(map(repr, res.n)), set(map(repr, res.N))
+        raise HarnessError("forked rehearsal and in-process lookups disagree on %s: %s"
+                           % (name, sorted(a ^ b)[:4]))
     ngroups = {}
     for st, f, hx, val in res.N:
         nm = bytes.fromhex(hx).decode("latin-1")
@@ -391,7 +407,7 @@ def run_db_scenario(cx, name, keys, files, thorough):
             cx.fail("name/%s@%d/%s(%r)" % (name, st, f, nm),
                     "%s(%r) after loading %s returns %r, expected %s" % (f, nm, keys[:st], val[1], exp),
                     {"observed": repr(val[1]), "scenario": name, "keys": keys,
-                     "pre_ops": sub_paths(pre, files), "call": call},
+                     "pre_ops": [o.replace(nfile, "{names}") for o in sub_paths(pre, files)], "call": call},
                     confirm=cx.confirm_value(pre, call, lambda v, val=val: v == val))
     return len(dumps)
 
@@ -639,18 +655,24 @@ def replay(cx, files):
         for k, p in files.items():
             o = o.replace("{%s}" % k, p)
         pre.append(o)
-    pre = [o for o in pre if not o.startswith("names:")]
+    if any("{names}" in o for o in pre):
+        # the lookups made between the loads are part of the history: regenerate them
+        paths = [files[k] for k in d["keys"]]
+        final = stage_dumps(cx.ba, paths)[-1]
+        nfile = os.path.join(cx.ck.scratch("names"), "replay.txt")
+        write_names(nfile, name_universe(final))
+        pre = [o.replace("{names}", nfile) for o in pre]
     res = cx.single(pre, d["call"], scale=10)
     print("ops:", " ".join(pre + [d["call"]]))
     print("exit status:", res.r.rc, "timeout:", res.r.timeout)
-    print("answer:", list(res.R.items()) + res.N)
+    v = answer_of(res, d["call"])
+    print("answer:", v)
     print("stderr:", (res.r.err or "")[-1500:])
     print("recorded:", rp["what"])
     cx.ck.cleanup()
-    bad = res.r.timeout or res.r.rc != 0
+    bad = res.r.timeout or res.r.rc != 0 or v is None
     if not bad and "observed" in d:
-        vals = [repr(v[1]) for v in res.R.values()] + [repr(n[3][1]) for n in res.N]
-        bad = vals == [d["observed"]] or (rp["key"].startswith("neutral/") and vals and vals[0] in d["observed"].split(","))
+        bad = repr(v[1]) == d["observed"] or (rp["key"].startswith("neutral/") and repr(v[1]) in d["observed"].split(","))
     return 1 if bad else 0
 
 
